@@ -124,6 +124,11 @@ Definition match_pattern_list (O : oracle) (pl : list pitem) (lib : bytes) (so :
   fold_left (fun ret p => if item_hits O lib so name p then (if pi_pos p then 1 else -1)%Z else ret)
             pl 0%Z.
 
+(* match_pattern_module (mcount_dynamic_dlopen): a dlopen()ed library is looked at only if some
+   pattern's module is a prefix of its file name or soname *)
+Definition match_pattern_module (pl : list pitem) (path : bytes) (so : option bytes) : bool :=
+  existsb (fun p => mod_applies path so (pi_mod p)) pl.
+
 (* the command line: -P x  appends "x", -U x appends "!x", joined by ';' (uftrace.c) *)
 Inductive cliopt := OptP (arg : bytes) | OptU (arg : bytes).
 Definition render_opt (o : cliopt) : bytes :=
@@ -556,7 +561,8 @@ Record pcase := {
   p_cli : option (list cliopt);            (* the -P/-U options the string was rendered from *)
   p_regok : list (bytes * bool); p_tbl : list (bytes * bytes * bool);
   p_items : list pitem;                    (* the implementation's parsed list *)
-  p_queries : list query
+  p_queries : list query;
+  p_mods : list (bytes * option bytes * bool)   (* path, get_soname(path), match_pattern_module(path) *)
 }.
 Definition p_oracle (c : pcase) : oracle := mk_oracle (p_regok c) (p_tbl c).
 
@@ -566,7 +572,8 @@ Definition p_agrees (c : pcase) : bool :=
   list_eqb pitem_eqb pl (p_items c)
   && forallb (fun q => (match_pattern_list O pl (q_lib q) (q_so q) (q_name q) =? q_ret q)%Z
                        && list_eqb Bool.eqb (map (fun p => matches O (pi_patt p) (q_name q)) pl) (q_bits q))
-             (p_queries c).
+             (p_queries c)
+  && forallb (fun x => let '(path, so, r) := x in Bool.eqb (match_pattern_module pl path so) r) (p_mods c).
 
 (* the property on the implementation's own outputs: its verdict is the polarity of the last of
    ITS items whose module applies and whose pattern (ITS match result) matches; and for a list that
@@ -589,7 +596,10 @@ Definition p_ok (c : pcase) : bool :=
   && match p_cli c with
      | Some opts => list_eqb (fun o p => cli_item_ok (p_defmod c) o p) opts (p_items c)
      | None => true
-     end.
+     end
+  (* a library is skipped exactly when no item's module applies to it *)
+  && forallb (fun x => let '(path, so, r) := x in
+                       Bool.eqb (existsb (fun p => mod_applies path so (pi_mod p)) (p_items c)) r) (p_mods c).
 
 Definition dyntype_of (n : N) : dyntype :=
   match n with 1 => DPg | 2 => DFentry | 3 => DFentryNop | 4 => DXray | 5 => DPatchable | _ => DNone end.
